@@ -225,6 +225,7 @@ def part_tests(rep, sample, pool, rnd):
     from testtools.matchers import MismatchError
 
     fails = {}
+    shown_b = []
 
     def bad(clause, sig, e, v, cx, expected, observed):
         k = (clause, sig)
@@ -309,6 +310,10 @@ def part_tests(rep, sample, pool, rnd):
 
         name, det = outcome_of(run_case(body_expect))
         rep.case(nontrivial_key=sig_hash(("B-expect", e, v, cx.name)) if mism else None)
+        if mism and not shown_b and mc.depth_of(e) >= 2:
+            shown_b.append(1)
+            rep.sample({"real TestCase": "3 x expectThat(%s, Detailed(%s), %r, verbose=%r)" % (show_value(v), show_expr(e), msg, verbose),
+                        "outcome": name, "detail names": sorted(det)}, force=True)
         rep.traces += 1
         if log3.get("raised") is not None or not log3.get("after2"):
             bad("expectThat-raises", "expectThat:raised:%s" % type(log3.get("raised")).__name__, e, v, cx, "never raises", repr(log3.get("raised")))
@@ -446,7 +451,7 @@ def part_stock(rep, pool):
             for x in matchees:
                 m = mk()
                 rep.case(nontrivial_key="C-%s-%d-%s" % (name, table[name].index((mk, matchees)), sig_hash(repr(x))),
-                         sample={"stock matcher": name, "matchee": repr(x)[:80]} if name in ("MatchesRegex", "SameMembers") and x in ("é語", b"by\xfftes", []) else None)
+                         sample={"stock matcher": name, "matchee": repr(x)[:80]} if name == "MatchesRegex" and x == "é語" else None)
                 try:
                     r, mm = mc.verdict(m, x)
                     if r.startswith("E:"):
@@ -572,12 +577,9 @@ def part_text_repr(rep, cfg, rnd, per_row):
                 continue
             seen.add(s)
             nontriv = len(classes) >= 2 and any(c != "pa" for c in classes)
-            rep.case(
-                nontrivial_key=sig_hash(("D", kind, row["ml"], s)) if nontriv else None,
-                sample={"text_repr of": repr(s), "multiline": ml, "classes": classes, "model output": row["out"]}
-                if nontriv and rep.evaluations % 30011 == 29
-                else None,
-            )
+            rep.case(nontrivial_key=sig_hash(("D", kind, row["ml"], s)) if nontriv else None)
+            if nontriv and nrows % 9973 == 4000 and s is cands[-1]:
+                rep.sample({"text_repr of": repr(s), "multiline": ml, "classes": classes, "model output": row["out"]}, force=len(rep.samples) < 6)
             try:
                 out = text_repr(s, ml)
                 back = eval(out, {"__builtins__": {}}, {})  # Python's own evaluator is the oracle
@@ -643,7 +645,11 @@ def run(tier, pid="C07"):
         check_textrepr_mutation(rep)
         part_stock(rep, pool)
         if tier == "quick":
-            jobs = [("mt_mcQ.cfg", {}), ("mt_sim.cfg", dict(simulate=dict(num=15, depth=14), seed=rep.seed + 1))]
+            jobs = [
+                ("mt_mcQ.cfg", {}),
+                ("mt_mcD3q.cfg", {}),
+                ("mt_sim.cfg", dict(simulate=dict(num=15, depth=14), seed=rep.seed + 1)),
+            ]
             test_every, trjobs = 97, [("tr_exp4.cfg", 3)]
             mc_only = []
         else:
@@ -651,10 +657,10 @@ def run(tier, pid="C07"):
                 ("mt_mcQ.cfg", {}),
                 ("mt_mcF.cfg", {}),
                 ("mt_mcD3.cfg", {}),
-                ("mt_sim.cfg", dict(simulate=dict(num=800, depth=16), seed=rep.seed + 1)),
+                ("mt_sim.cfg", dict(simulate=dict(num=300, depth=16), seed=rep.seed + 1)),
             ]
             test_every, trjobs = 53, [("tr_exp5.cfg", 4)]
-            mc_only = ["tr_mc7.cfg"]
+            mc_only = ["tr_mc6.cfg"]
         sample = []
         for cfg, kw in jobs:
             rows, uni = mc.tlc_rows(cfg, "C07", rep, **kw)
@@ -694,6 +700,7 @@ def replay_file(path, pid="C07"):
             else:
                 bad_v = mc.trace_verdicts([{"e": sc["expr"], "v": sc["value"], "r": "?"}], None, "replay")
                 rep = Report("C07", "quick", "exploration", "replay")
+                rep._findings = []  # a replay shows the failure itself, known or not
                 part_tests(rep, [(sc["expr"], sc["value"], cx, bad_v.get(1))], pool, random.Random(0))
                 bad = bool(rep.violations)
                 info = [(x["clause"], x["signature"]) for x in rep.violations]
@@ -709,6 +716,7 @@ def replay_file(path, pid="C07"):
                 bad, info = True, repr(ex)
         else:
             rep = Report("C07", "quick", "exploration", "replay")
+            rep._findings = []
             part_stock(rep, pool)
             hit = [x for x in rep.violations if x["signature"] == v["signature"]]
             bad, info = bool(hit), [(x["clause"], x["signature"]) for x in hit]
